@@ -1,9 +1,12 @@
-"""C20 (c) - message ids handed out by the convenience API, observed on the wire.
+"""C20 (c) - the convenience API, observed on the wire.
 
 Several threads call ``pynetdicom2.c_find`` repeatedly against a reference peer
-that records the Message ID of every C-FIND-RQ together with the caller's tag
-(carried in the query).  Within one thread the ids must be unique (and, as the
-counter is per thread, consecutive), whatever the other threads do.
+that records, for every association, the calling AE title of the request and the
+Message ID of the C-FIND-RQ together with the caller's tag (carried in the
+query).  Within one thread the ids must be unique (and, as the counter is per
+thread, consecutive), whatever the other threads do; and every association
+carries the local AE title given to *that* call - a thread that is re-used for
+another query, or has two queries open at once, keeps them apart.
 """
 from __future__ import annotations
 
@@ -20,14 +23,15 @@ def run(res, seed, nthreads=6, per=5):
     lock = threading.Lock()
 
     def handler(peer):
-        peer.accept(max_len=16384)
+        rq = peer.accept(max_len=16384)
         ctx, cmd, data, lengths, problems = peer.recv_dimse()
         ts = peer.contexts[ctx][1]
         from pydicom import uid
         u = uid.UID(ts)
         q = dsutils.decode(data, u.is_implicit_VR, u.is_little_endian)
         with lock:
-            seen.append((str(q.PatientID), cmd.get(R.TAG_MESSAGE_ID)))
+            seen.append((str(q.PatientID), cmd.get(R.TAG_MESSAGE_ID), str(q.PatientName),
+                         rq['calling'].strip(b' \0').decode()))
         peer.send_dimse(ctx, {R.TAG_AFFECTED_SOP_CLASS: svc.FIND, R.TAG_COMMAND_FIELD: 0x8020,
                               R.TAG_MESSAGE_ID_RSP: cmd.get(R.TAG_MESSAGE_ID), R.TAG_STATUS: 0})
         nxt = peer.recv_pdu()
@@ -42,14 +46,27 @@ def run(res, seed, nthreads=6, per=5):
             remote = {'aet': 'IDPEER', 'address': '127.0.0.1', 'port': srv.port}
             start = threading.Barrier(nthreads)
 
+            def query(t, title):
+                q = pydicom.Dataset()
+                q.PatientID = 'T%d' % t
+                q.PatientName = title          # the title this call was given, carried in the query
+                q.QueryRetrieveLevel = 'PATIENT'
+                return q
+
             def worker(t):
                 try:
                     start.wait(10)
                     for k in range(per):
-                        q = pydicom.Dataset()
-                        q.PatientID = 'T%d' % t
-                        q.QueryRetrieveLevel = 'PATIENT'
-                        list(pynetdicom2.c_find(remote, 'IDSCU%d' % t, q))
+                        # odd threads use a new local AE title for every call
+                        title = 'IDSCU%d' % t if t % 2 == 0 else 'IDSCU%d-%d' % (t, k)
+                        if t % 4 == 3 and k == per - 1:
+                            # two queries of one thread open at the same time
+                            outer = pynetdicom2.c_find(remote, title, query(t, title))
+                            first = next(outer, None)
+                            list(pynetdicom2.c_find(remote, title + 'N', query(t, title + 'N')))
+                            list(outer)
+                        else:
+                            list(pynetdicom2.c_find(remote, title, query(t, title)))
                 except Exception as exc:
                     errors.append('%s: %s' % (type(exc).__name__, exc))
             threads = [threading.Thread(target=worker, args=(t,), daemon=True) for t in range(nthreads)]
@@ -66,16 +83,24 @@ def run(res, seed, nthreads=6, per=5):
         res.inconclusive.append('message-id workload over c_find failed: %r %r' % (errors[:2], srv.errors[:1]))
         return
     by_thread = {}
-    for tag, mid in seen:
+    for tag, mid, given, calling in seen:
         by_thread.setdefault(tag, []).append(mid)
-    res.sample({'msg_ids_on_the_wire': {k: v for k, v in sorted(by_thread.items())[:3]}}, limit=5)
-    if sorted(len(v) for v in by_thread.values()) != [per] * nthreads:
+    res.sample({'msg_ids_on_the_wire': {k: v for k, v in sorted(by_thread.items())[:3]},
+                'calling_titles': sorted(set(s[3] for s in seen))[:8]}, limit=5)
+    want = sorted(per + (1 if t % 4 == 3 else 0) for t in range(nthreads))
+    if sorted(len(v) for v in by_thread.values()) != want:
         res.inconclusive.append('message-id workload: %r requests seen' % {k: len(v) for k, v in by_thread.items()})
         return
     for tag, ids in sorted(by_thread.items()):
         if len(set(ids)) != len(ids):
             res.violation('message-id-repeated-in-thread', 'C20.msg-id',
                           'c_find calls of thread %s carried message ids %r' % (tag, ids), case)
-        elif ids != list(range(ids[0], ids[0] + len(ids))):
+        elif sorted(ids) != list(range(min(ids), min(ids) + len(ids))):
             res.violation('message-id-sequence-influenced-by-other-threads', 'C20.msg-id',
                           'c_find calls of thread %s carried message ids %r' % (tag, ids), case)
+    res.count('oracle.local-title-per-call', len(seen))
+    wrong = [(tag, given, calling) for tag, mid, given, calling in seen if given != calling]
+    if wrong:
+        res.violation('association-with-another-calls-parameters', 'C20.isolation',
+                      'c_find of thread %s was given local AE title %r, its association request carried %r '
+                      '(%d such calls)' % (wrong[0] + (len(wrong),)), case)
